@@ -8,6 +8,7 @@
 #define SPECTRA_DENSE_SYM_MAT_PROD_H
 
 #include <Eigen/Core>
+#include <stdexcept>
 
 namespace Spectra {
 
@@ -60,6 +61,9 @@ public:
         static_assert(
             static_cast<int>(Derived::PlainObject::IsRowMajor) == static_cast<int>(Matrix::IsRowMajor),
             "DenseSymMatProd: the \"Flags\" template parameter does not match the input matrix (Eigen::ColMajor/Eigen::RowMajor)");
+
+        if (mat.rows() != mat.cols())
+            throw std::invalid_argument("DenseSymMatProd: matrix must be square");
     }
 
     ///
